@@ -107,7 +107,7 @@ theorem finishCall_timer (g : Cfg) (r : S × Ret) :
       rw [wl_cModWrite] at h
       exact absurd h (isEmpty_ne_true he)
   · rename_i he
-    exact ⟨fun h => absurd h he, fun h => by simp [closeNow] at h⟩
+    exact ⟨fun h => absurd h he, fun h => by simp [flip] at h⟩
 
 /-! ### a write that empties the backlog cancels the deadline -/
 
@@ -321,15 +321,22 @@ theorem timer_kept_by_backlog (g : Cfg) (s : S) (op : Op) (ht : s.wTimer = true)
         · exact h1
         · rename_i hcl
           rw [if_neg hcl] at ho
-          simp [closeWE, closeNow] at ho
+          simp [flipWE, flip] at ho
       · exact h1
-  | close =>
-    simp only [step, close] at ho hw ⊢
+  | flipClosed =>
+    simp only [step, flipClosed] at ho hw ⊢
     split
     · exact ht
     · rename_i h
       rw [if_neg h] at ho
-      simp [closeWE, closeNow] at ho
+      simp [flipWE, flip] at ho
+  | teardown =>
+    simp only [step, teardown] at ho hw ⊢
+    split
+    · rename_i h
+      rw [if_pos h] at hw
+      simp at hw
+    · exact ht
   | setWriteDeadline z =>
     cases z with
     | true => exact absurd rfl hop
@@ -351,20 +358,20 @@ theorem timer_kept_by_backlog (g : Cfg) (s : S) (op : Op) (ht : s.wTimer = true)
       · exact ht
       · rename_i hcl
         rw [if_neg hcl] at ho
-        simp [closeWE, closeNow] at ho
+        simp [flipWE, flip] at ho
 
 /-! ### closing cancels the deadline -/
 
 /-- `closeWithError` (Close / CloseWithError, an error event, the timer itself) stops the write deadline. -/
 theorem close_stops_timer (s : S) (hh : s.hung = false) (hc : s.closed = false) :
-    (close s).closed = true ∧ (close s).wTimer = false := by
-  simp [close, hh, hc, closeWE, closeNow, stopTimer]
+    (flipClosed s).closed = true ∧ (flipClosed s).wTimer = false := by
+  simp [flipClosed, hh, hc, flipWE, flip, stopTimer]
 
 /-- A timeout close needs a timer that expired while it was set: the second step of the fire closes an
     open connection with the timer cleared … -/
 theorem timer_fire_closes (s : S) (hh : s.hung = false) (hc : s.closed = false) (hp : s.firePending = true) :
     (timerFire s).closed = true ∧ (timerFire s).wTimer = false ∧ (timerFire s).firePending = false := by
-  simp [timerFire, hh, hc, hp, closeWE, closeNow, stopTimer]
+  simp [timerFire, hh, hc, hp, flipWE, flip, stopTimer]
 
 /-- … and does nothing to a connection that is already closed (whatever closed it). -/
 theorem timer_fire_closed_noop (s : S) (hc : s.closed = true) :
@@ -404,7 +411,7 @@ example : (run g0 init [.register, .setWriteDeadline false, .write [1, 2, 3] (.w
 
 /-- deadline expires with a backlog: the two steps of the fire close the connection -/
 example :
-    let s := run g0 init [.register, .setWriteDeadline false, .write [1, 2, 3] .eagain, .timerExpire, .timerFire]
+    let s := run g0 init [.register, .setWriteDeadline false, .write [1, 2, 3] .eagain, .timerExpire, .timerFire, .teardown]
     s.closed = true ∧ s.wTimer = false ∧ s.onClose = 1 := by decide
 
 /-- renewal racing the callback: the goroutine has started, the deadline is renewed, the close still happens -/
